@@ -7,6 +7,7 @@
      t.fe     ForEach runs: [k = index of the failing callback call, visited, err = "same" | "nil" | "other"]
      t.srcok  the source slices still hold what they held before
      t.cc / t.post   calls during construction / Value() of the exhausted iterator: [panic, v]
+     t.repoll  Next() of the exhausted iterator, polled once more: "false" | "true" | "panic"
    TRACE-P  in the first state of a trace the P layer of Iter (list semantics of the logged expression) judges the
             observation; every failing predicate is printed ({"t":"PVIOL",...}).
    TRACE-I  the cursor state of the model is advanced step by step; the first observed step that differs from the
@@ -39,6 +40,7 @@ Step == /\ drift = "no" /\ i < Len(Obs)
               /\ drift' = IF ~same THEN "step"
                           ELSE IF last /\ n[1] THEN "length"          \* the model would go on
                           ELSE IF last /\ ~SamePost(PostOf(n[2]), T.post) THEN "post"
+                          ELSE IF last /\ RepollOf(n[2]) # T.repoll THEN "repoll"
                           ELSE IF ~last /\ ~n[1] THEN "length"
                           ELSE "no"
         /\ i' = i + 1 /\ UNCHANGED ti
